@@ -20,7 +20,7 @@ COQ_CASE_TYPE = 'case'
 COQ_AGREE = 'agree'
 REPLAY_KIND = 'input'
 EXHAUSTIVE = {'quick': False, 'thorough': False}
-IMPL_TIMEOUT = 1500
+IMPL_TIMEOUT = 6000      # the thorough stream needs ~6 min of implementation time on an idle machine, five times that when it is shared
 RULE = ('schema graphs generated from a description: 1-4 classes in a chosen registry order, 0-3 ForeignKey columns per '
         'class with every cascade setting (True/False/\'null\'/None), targets including the class itself and two columns '
         'to the same target, 0-2 intermediate tables declared by one or both sides (including a self join); populations '
@@ -31,7 +31,13 @@ RULE = ('schema graphs generated from a description: 1-4 classes in a chosen reg
         'populations as HISTORIES in a fresh registry: an object of every early class is destroyed first, then the last classes are '
         'declared and trailing ForeignKey columns / RelatedJoins are added with sqlmeta.addColumn/addJoin, then the victim is '
         'destroyed; held instances are fetched before the destroy and their cached column values compared with the stored rows. '
-        'Exhaustive sub-families: two FK columns to one target x all 16 policy pairs x all value pairs x both registry '
+        'CLASS OPTIONS: a third of the random populations give every class sqlmeta.lazyUpdate (45%) and cacheValues=False (30%), '
+        'with random assignments queued on held instances of the lazy classes before the destroy; afterwards the queue '
+        '(_SO_createValues) of the live instance of every surviving lazy row is read, every live and held instance is '
+        'syncUpdate()d and the tables are dumped again. TRANSACTIONS: a sixth of the cases fetch the victim through '
+        'conn.transaction() while the held instances live in the parent connection\'s cache; commit(close=True) after a '
+        'normal return, rollback() after an exception; dump, get(id) and held values are then taken on the parent. '
+        'Exhaustive sub-families: a lazyUpdate class with two FK columns to one target x policy pairs x value pairs x cacheValues x 5 queued-assignment patterns; two FK columns to one target x all 16 policy pairs x all value pairs x both registry '
         'orders; one class with two self references; chains of depth 3 with all 64 policy triples in several registry '
         'orders. A malformed stream destroys ids that do not exist. Non-trivial = something other than the victim row '
         'changes or the call raises; distinct = distinct (graph, population, victim, cache, hold).')
@@ -42,7 +48,12 @@ EXPLANATION = ('Coq theorems over all schema graphs, populations, victims, cache
                'references into it, cleaned the link rows on both sides, and left the rest), C12_refusal_noticed, '
                'C12_done_restrictors_in_closure, C12_raise_only_if_restricted, C12_gone (cached and uncached alike), C12_effect, C12_untouched, '
                'C12_other_columns_kept; C12_acyclicb_iff/C12_closure_* give the guards their meaning; *_refuted witnesses for the '
-               'three deviations still open (partial effects before a refusal, cascade cycles, order dependence). Correspondence: Model/Cascade.v `destroy` evaluated by vm_compute must reproduce the '
+               'three deviations still open (partial effects before a refusal, cascade cycles, order dependence). Class options and transactions: '
+               'destroyX (stored state + queues of live instances) projects onto destroyL (C12x_stored_projection; the database never depends on a queue, C12x_queue_independent), '
+               'which is the plain destroy for every option assignment without a lazyUpdate class holding a cascade=\'null\' column (C12x_plain_is_destroy), so '
+               'C12x_refines_partial / C12x_terminates / C12x_done_is_spec / C12x_gone hold over the extended schema space; C12x_lazy_reference_outlives_row / '
+               'C12x_lazy_rows_never_written state the lazyUpdate deviation universally (a surviving lazy row is stored as before, the victim is gone), with the '
+               'C12x_*_refuted witnesses; C12x_txn_refusal_clean, C12x_txn_done_is_spec, C12x_txn_gone_cached (caching parent) and C12x_txn_uncached_refuted for destroySelf through a Transaction. Correspondence: Model/Cascade.v `destroy` evaluated by vm_compute must reproduce the '
                'outcome, every class table and link table and every get(id) the real SQLObject produced on sqlite (including the '
                'partial effects of refused calls), and `destroy_spec` must equal the specification the plugin computes '
                'independently; the oracle judges the implementation against that specification.')
@@ -51,7 +62,9 @@ TRUSTED_BASE = [
     'Model/Cascade.v `destroy` is hand-written after SQLObject.destroySelf; its agreement with the code is checked by execution on generated cases only (Tie B), not proved',
     'sqlite with PRAGMA foreign_keys off (the sqlite3 default): the ON DELETE clauses SQLObject writes into CREATE TABLE are not enforced by the engine and not modelled; other backends not executed',
     'SELECT without ORDER BY returns rows in rowid order (observed on sqlite; the order of the recursive destroySelf calls depends on it)',
-    'RowDestroySignal/RowDestroyedSignal listeners, inheritance (InheritableSQLObject.destroySelf), Transaction connections and lazyUpdate are outside the model',
+    'RowDestroySignal/RowDestroyedSignal listeners and inheritance (InheritableSQLObject.destroySelf) are outside the model',
+    'lazyUpdate: an instance nobody holds on a cache=False connection is modelled as dropped with its queue at once (the real one lingers until the cycle collector runs; the harness calls gc.collect() before observing); queues are observed only for rows that still exist; no queued assignments in the Transaction mode',
+    'Transaction mode: only the protocol "fetch the victim through the transaction, destroySelf, commit(close=True) / rollback() on any exception" with the parent holding the instances; what the parent sees before the commit is not judged; held-value coherence after commit is not judged on cache=False parents (C07 commit_forgets_uncached_row)',
     'row-level cascade cycles: the model runs out of fuel for every fuel; the real interpreter stops with RecursionError at a depth the model does not predict, so no state is compared for those cases',
     'the identity map is modelled only as "the instances somebody still holds": hits are returned without a query; destroySelf purges the entry in either cache mode',
     'the correspondence harness tools/props/c12.py (dynamic class creation, raw-cursor population and dumps) and the cases.v evaluation',
@@ -163,13 +176,20 @@ def decoy_of(classes, rows, victim):
     return out
 
 
-def mk(classes, rows, links, victim, cache, hold, conn='default', decoy=None, late=None):
+def mk(classes, rows, links, victim, cache, hold, conn='default', decoy=None, late=None, opts=None, pre=None):
     """conn='other': the classes are bound to a default connection holding the `decoy` population; the
     population proper lives in a second database and every operation passes connection= explicitly."""
     c = {'classes': classes, 'rows': rows, 'links': links, 'victim': list(victim), 'cache': cache, 'hold': hold,
          'conn': conn}
     if conn == 'other':
         c['decoy'] = decoy if decoy is not None else decoy_of(classes, rows, victim)
+    if opts and any(o != [False, True] for o in opts):
+        # class options: opts[i] = [sqlmeta.lazyUpdate, sqlmeta.cacheValues] of class i
+        c['opts'] = [list(o) for o in opts]
+    if pre:
+        # assignments [class, id, column, value] made on HELD instances of lazyUpdate classes before the
+        # destroy (queued, not written)
+        c['pre'] = [list(a) for a in pre]
     if late:
         # history: the last late['ncls'] classes are declared, and the last late['fks'][i] ForeignKey columns /
         # late['joins'][i] RelatedJoins of the earlier class i are added (sqlmeta.addColumn / addJoin), only AFTER
@@ -192,20 +212,44 @@ def random_late(rng, classes):
 
 
 def conn_mode(n):
-    # a third of the cases go through an explicit, non-default connection
-    return 'other' if (n // 2) % 3 == 2 else 'default'
+    # a third of the cases go through an explicit, non-default connection, a sixth through a Transaction
+    # of the classes' connection (commit on a normal return, rollback on an exception)
+    if (n // 2) % 3 == 2:
+        return 'other'
+    return 'txn' if (n // 2) % 6 == 1 else 'default'
 
 
 HOLDS = ['all', 'victim', 'none']
 
 
-def all_victims(classes, rows, links, k0=0, late=None):
+def random_opts(rng, classes):
+    return [[rng.random() < 0.45, rng.random() >= 0.3] for _ in classes]
+
+
+def random_pre(rng, classes, rows, opts, hold, victim, conn):
+    """assignments queued on held instances of lazyUpdate classes before the destroy"""
+    if conn == 'txn' or not opts:
+        return None
+    c = {'hold': hold, 'rows': rows, 'victim': list(victim)}
+    pre = []
+    for (i, rid) in held_nodes(c):
+        fks = classes[i]['fks']
+        if opts[i][0] and fks and rng.random() < 0.5:
+            j = rng.randrange(len(fks))
+            t = fks[j][0]
+            pre.append([i, rid, j, rng.choice([None, victim[1], 7] + [r[0] for r in rows[t]])])
+    return pre
+
+
+def all_victims(classes, rows, links, k0=0, late=None, opts=None, rng=None):
     out = []
     n = k0
     for i, rs in enumerate(rows):
         for r in rs:
             for cache in (True, False):
-                out.append(mk(classes, rows, links, (i, r[0]), cache, HOLDS[n % 3], conn_mode(n), late=late))
+                pre = random_pre(rng, classes, rows, opts, HOLDS[n % 3], (i, r[0]), conn_mode(n)) if rng else None
+                out.append(mk(classes, rows, links, (i, r[0]), cache, HOLDS[n % 3], conn_mode(n), late=late,
+                              opts=opts, pre=pre))
                 n += 1
     return out
 
@@ -349,6 +393,28 @@ def fam_chain(thorough):
     return out
 
 
+def fam_lazy(thorough):
+    """class K1 (lazyUpdate) with two FK columns to K0: all 16 policy pairs, all value pairs, cacheValues on/off,
+    with and without an assignment queued on the held dependent (to the victim / away from it / NULL)"""
+    out = []
+    n = 0
+    for p1, p2 in itertools.product(POLS, POLS):
+        if 'N' not in (p1, p2) and not thorough and (n % 3):
+            n += 1
+            continue
+        for v1, v2 in itertools.product([None, 1, 2], repeat=2):
+            for cv in (True, False):
+                for pre in (None, [[1, 1, 0, 1]], [[1, 1, 0, 2]], [[1, 1, 1, None]], [[1, 2, 0, 1], [1, 1, 1, 1]]):
+                    classes = [{'fks': [], 'joins': []}, {'fks': [[0, p1], [0, p2]], 'joins': []}]
+                    rows = [[[1, []], [2, []]], [[1, [v1, v2]], [2, [2, None]]]]
+                    hold = 'all' if pre else HOLDS[n % 3]
+                    conn = 'default' if pre else ['default', 'default', 'other', 'txn'][n % 4]
+                    out.append(mk(classes, rows, [], (0, 1), (n // 3) % 2 == 0, hold, conn,
+                                  opts=[[False, True], [True, cv]], pre=pre))
+                    n += 1
+    return out
+
+
 def witnesses():
     E = {'fks': [], 'joins': []}
     return [
@@ -401,6 +467,27 @@ def witnesses():
         mk([E, {'fks': [[0, 'N'], [0, 'O']], 'joins': []}], [[[1, []], [2, []]], [[1, [1, 1]], [2, [2, 1]]]], [],
            (0, 1), True, 'all'),
         mk([E, {'fks': [[0, 'N']], 'joins': []}], [[[1, []]], [[1, [1]]]], [], (0, 1), False, 'all'),
+        # finding: cascade='null' into a lazyUpdate class is only queued: the reference outlives the row
+        mk([E, {'fks': [[0, 'N']], 'joins': []}], [[[1, []]], [[1, [1]]]], [], (0, 1), True, 'all',
+           opts=[[False, True], [True, True]]),
+        mk([E, {'fks': [[0, 'N']], 'joins': []}], [[[1, []]], [[1, [1]]]], [], (0, 1), False, 'none',
+           opts=[[False, True], [True, True]]),
+        # finding: ... and the row referencing only through the 'null' column is cascade-deleted
+        mk([E, {'fks': [[0, 'N'], [0, 'C']], 'joins': []}], [[[1, []]], [[1, [1, None]]]], [], (0, 1), True, 'all',
+           opts=[[False, True], [True, True]]),
+        # queued assignments on held lazy dependents (towards the victim, away from it), cacheValues=False
+        mk([E, {'fks': [[0, 'N'], [0, 'O']], 'joins': []}], [[[1, []], [2, []]], [[1, [1, 1]], [2, [2, 2]]]], [],
+           (0, 1), True, 'all', opts=[[False, True], [True, False]], pre=[[1, 2, 0, 1], [1, 1, 1, 2]]),
+        mk([E, {'fks': [[0, 'N'], [0, 'C']], 'joins': []}], [[[1, []], [2, []]], [[1, [1, 2]], [2, [2, 1]]]], [],
+           (0, 1), False, 'all', opts=[[False, True], [True, True]], pre=[[1, 1, 0, 2], [1, 2, 0, 1]]),
+        # destroySelf through a Transaction, dependents cached on the class connection: commit / rollback
+        mk([E, {'fks': [[0, 'C']], 'joins': []}, {'fks': [[0, 'N']], 'joins': []}],
+           [[[1, []]], [[1, [1]]], [[1, [1]]]], [], (0, 1), True, 'all', 'txn'),
+        # finding: cache=False parent hands the destroyed instances out after commit
+        mk([E, {'fks': [[0, 'C']], 'joins': []}, {'fks': [[0, 'N']], 'joins': []}],
+           [[[1, []]], [[1, [1]]], [[1, [1]]]], [], (0, 1), False, 'all', 'txn'),
+        mk([E, {'fks': [[0, 'C']], 'joins': []}, {'fks': [[1, 'R']], 'joins': []}],
+           [[[1, []]], [[1, [1]], [2, [1]]], [[1, [2]]]], [], (0, 1), True, 'all', 'txn'),
         # a row handed to destroySelf twice (materialised result list)
         mk([E, {'fks': [[0, 'C'], [1, 'C']], 'joins': []}],
            [[[1, []]], [[1, [1, None]], [2, [1, 1]]]], [], (0, 1), True, 'all'),
@@ -417,6 +504,7 @@ def generate(rng, tier):
     out += fam_two_columns(thorough)
     out += fam_self(thorough)
     out += fam_chain(thorough)
+    out += fam_lazy(thorough)
     ngraphs = 800 if not thorough else 6000
     k = 0
     for g in range(ngraphs):
@@ -425,7 +513,9 @@ def generate(rng, tier):
             rows, links = random_population(rng, classes, ends, style=rng.choice([None, 'dag', 'dag']))
             # a quarter of the populations: part of the reference graph appears only after earlier destroys
             late = random_late(rng, classes) if (2 * g + _) % 4 == 1 else None
-            out += all_victims(classes, rows, links, k, late)
+            # a third of the populations: lazyUpdate / cacheValues=False on some classes
+            opts = random_opts(rng, classes) if k % 3 == 1 else None
+            out += all_victims(classes, rows, links, k, late, opts, rng if opts else None)
             k += 1
     # malformed stream: ids that do not exist, classes without rows
     for g in range(40 if not thorough else 400):
@@ -439,12 +529,14 @@ def generate(rng, tier):
 
 
 def search_cases(rng, tier):
-    out = fam_two_columns(True) + fam_self(True) + fam_chain(True)
+    out = fam_two_columns(True) + fam_self(True) + fam_chain(True) + fam_lazy(True)
     k = 0
     for g in range(1500):
         classes, ends = random_graph(rng)
         rows, links = random_population(rng, classes, ends, style=rng.choice([None, 'dag']))
-        out += all_victims(classes, rows, links, k, random_late(rng, classes) if g % 3 == 0 else None)
+        opts = random_opts(rng, classes) if g % 2 == 1 else None
+        out += all_victims(classes, rows, links, k, random_late(rng, classes) if g % 3 == 0 else None, opts,
+                           rng if opts else None)
         k += 1
     return out
 
@@ -461,6 +553,8 @@ def run_one(c, mods):
     reg = 'verif_c12_%d' % n
     conn = SQLiteConnection(':memory:', cache=bool(c['cache']))
     other = c.get('conn') == 'other'
+    txn = c.get('conn') == 'txn'
+    opts = c.get('opts') or [[False, True]] * len(c['classes'])
     # explicit-connection mode: the classes are bound to `dflt` (another database, holding the decoy
     # population); everything below goes through `conn` with connection= passed explicitly
     dflt = SQLiteConnection(':memory:') if other else conn
@@ -481,7 +575,8 @@ def run_one(c, mods):
 
         def make_class(i, nf, nj):
             cd = c['classes'][i]
-            attrs = {'_connection': dflt, 'sqlmeta': type('sqlmeta', (), {'registry': reg})}
+            attrs = {'_connection': dflt, 'sqlmeta': type('sqlmeta', (), {
+                'registry': reg, 'lazyUpdate': bool(opts[i][0]), 'cacheValues': bool(opts[i][1])})}
             for j, (t, p) in enumerate(cd['fks'][:nf]):
                 attrs['f%d' % j] = fkdef(j, t, p)
             for j, (o, tb, side) in enumerate(cd['joins'][:nj]):
@@ -564,11 +659,19 @@ def run_one(c, mods):
         vi, vid = c['victim']
         if c['hold'] == 'victim' and any(r[0] == vid for r in c['rows'][vi]):
             held[(vi, vid)] = classes[vi].get(vid, **kw)
+        # assignments on held instances of lazyUpdate classes: queued, not written
+        for (i, rid, j, v) in c.get('pre', []):
+            setattr(held[(i, rid)], 'f%dID' % j, v)
         old = sys.getrecursionlimit()
         sys.setrecursionlimit(300)
+        trans = conn.transaction() if txn else None
         try:
             try:
-                if (vi, vid) in held:
+                if txn:
+                    # the held instances live in the parent's cache; the victim is fetched through the transaction
+                    classes[vi].get(vid, connection=trans).destroySelf()
+                    trans.commit(close=True)
+                elif (vi, vid) in held:
                     held[(vi, vid)].destroySelf()
                 else:
                     classes[vi].delete(vid, **kw)
@@ -577,8 +680,14 @@ def run_one(c, mods):
                 out = 'RecursionError'
             except Exception as e:
                 out = type(e).__name__
+            if txn and out != 'ok':
+                try:
+                    trans.rollback()
+                except Exception as e:
+                    out = 'rollback:' + type(e).__name__
         finally:
             sys.setrecursionlimit(old)
+        trans = None
         gc.collect()
         atabs, alinks = dump()
         # what the application's held instances say about rows that still exist
@@ -601,8 +710,45 @@ def run_one(c, mods):
                 except Exception as e:
                     g.append(type(e).__name__)
             gets.append(g)
+        # the queues (_SO_createValues) of the live instances of lazyUpdate classes, for every row that still
+        # exists: the instance get() hands out now (a held one, one kept by the cache, or a fresh one)
+        queues = []
+        flush_err = []
+        if any(o[0] for o in opts) and not txn:
+            live = []
+            for i, rows in enumerate(c['rows']):
+                if not opts[i][0]:
+                    continue
+                present = {r[0] for r in atabs[i]}
+                for rid, _ in rows:
+                    if rid in present:
+                        try:
+                            obj = classes[i].get(rid, **kw)
+                        except Exception as e:
+                            flush_err.append([i, rid, 'get:' + type(e).__name__])
+                            continue
+                        cv = obj._SO_createValues
+                        queues.append([i, rid, [[cv['f%dID' % j]] if 'f%dID' % j in cv else None
+                                                for j in range(len(c['classes'][i]['fks']))]])
+                        live.append((i, rid, obj))
+            # ... and then everything queued is written: syncUpdate() of every live instance and of every
+            # held one (those of destroyed rows included)
+            for (i, rid), obj in sorted(held.items()):
+                if opts[i][0] and not any(l[2] is obj for l in live):
+                    live.append((i, rid, obj))
+            for i, rid, obj in live:
+                try:
+                    obj.syncUpdate()
+                except Exception as e:
+                    flush_err.append([i, rid, type(e).__name__])
+            live = obj = None
+        tabs2 = dump()[0]
         held.clear()
         res = {'out': out, 'tabs': atabs, 'links': alinks, 'gets': gets, 'cached': cached}
+        if c.get('opts'):
+            res['queues'] = queues
+            res['tabs2'] = tabs2
+            res['flush_err'] = flush_err
         if other:
             # the default database must not have been read for decisions nor written
             res['default_changed'] = dump_of(dcur) != dbefore
@@ -683,11 +829,28 @@ def coq_case(c, o):
     gets = '; '.join('((%d%%N, %s), %s)' % (i, zl(r[0]), 'false' if o['gets'][i][j] == 'NotFound' else 'true')
                      for i, rs in enumerate(c['rows']) for j, r in enumerate(rs))
     sp = spec_of(c)
+
+    def b(x):
+        return 'true' if x else 'false'
+
+    def qent(e):
+        return '[%s]' % '; '.join('N_' if x is None else '(S_ %s)' % optz(x[0]) for x in e)
+    opts = '[%s]' % '; '.join('(%d%%N, {| o_lazy := %s; o_cachevals := %s |})' % (i, b(ov[0]), b(ov[1]))
+                              for i, ov in enumerate(c.get('opts') or []))
+    q0 = {}
+    for (i, rid, j, v) in c.get('pre', []):
+        e = q0.setdefault((i, rid), [None] * len(c['classes'][i]['fks']))
+        e[j] = [v]
+    q0s = '[%s]' % '; '.join('((%d%%N, %s), %s)' % (i, zl(rid), qent(e)) for (i, rid), e in sorted(q0.items()))
+    qobs = 'queues' in o and c.get('conn') != 'txn'
+    queues = '[%s]' % '; '.join('((%d%%N, %s), %s)' % (i, zl(rid), qent(e)) for i, rid, e in o.get('queues', []))
     return ('{| c_graph := %s; c_state := %s; c_cache := %s; c_victim := (%d%%N, %s); c_out := %s; '
-            'c_tabs := %s; c_links := %s; c_gets := [%s]; c_spec_refused := %s; c_spec_tabs := %s; c_spec_links := %s |}' % (
+            'c_tabs := %s; c_links := %s; c_gets := [%s]; c_spec_refused := %s; c_spec_tabs := %s; c_spec_links := %s; '
+            'c_opts := %s; c_q0 := %s; c_txn := %s; c_qobs := %s; c_queues := %s; c_tabs2 := %s |}' % (
                 g, st, 'true' if c['cache'] else 'false', c['victim'][0], zl(c['victim'][1]), outc,
                 coq_tabs(o['tabs']), coq_links(o['links']), gets, 'true' if sp['refused'] else 'false',
-                coq_tabs(sp['tabs']), coq_links(sp['links'])))
+                coq_tabs(sp['tabs']), coq_links(sp['links']),
+                opts, q0s, b(c.get('conn') == 'txn'), b(qobs), queues, coq_tabs(o.get('tabs2', []))))
 
 
 # ---------------------------------------------------------------- oracle: the property judged on the observation
@@ -696,6 +859,9 @@ F_PERCLASS = 'restrict_test_per_dependent_class'
 F_CYCLE = 'cascade_cycle_unbounded_recursion'
 F_ORDER = 'restriction_by_row_of_closure_depends_on_order'
 F_STALE = 'uncached_connection_hands_out_destroyed_instance'
+F_LAZYNULL = 'setnull_on_lazy_dependent_never_written'
+F_LAZYDEL = 'lazy_dependent_with_null_reference_cascade_deleted'
+F_TXNSTALE = 'commit_leaves_destroyed_instance_in_uncached_parent'
 
 
 def victim_exists(c):
@@ -789,15 +955,31 @@ def oracle(c, o):
     # (4) coherence of held instances: for every held instance whose row still exists (destroy successful or
     #     refused), the cached column values equal the stored row
     incoherent = []
+    qmap = {(i, rid): e for i, rid, e in o.get('queues', [])}
     for i, rid, vals in o.get('cached', []):
+        if c.get('conn') == 'txn' and not c['cache']:
+            # Transaction.commit on a cache=False parent does not reach the parent's instances of rows written
+            # through the transaction (C07 commit_forgets_uncached_row): not judged here
+            continue
         stored = [r[1] for r in o['tabs'][i] if r[0] == rid]
-        if not stored or vals != stored[0]:
-            incoherent.append([i, rid, vals, stored[0] if stored else None])
+        want = stored[0] if stored else None
+        if want is not None and (i, rid) in qmap and (c.get('opts') or [[0, 1]] * (i + 1))[i][1]:
+            # a lazyUpdate instance answers with its queued assignments on top of the stored row
+            want = [q[0] if q is not None else v for v, q in zip(want, qmap[(i, rid)])]
+        if not stored or vals != want:
+            incoherent.append([i, rid, vals, want])
     if incoherent:
         dev.append('stale_cached_values')
         detail['incoherent'] = incoherent
     if o.get('default_changed'):
         dev.append('default_db_touched')
+    # (5) writing the queued assignments afterwards (syncUpdate of every live and every held instance) raises
+    #     nothing and neither brings a destroyed row back nor loses one
+    if o.get('flush_err'):
+        dev.append('flush_error')
+        detail['flush_err'] = o['flush_err']
+    if 'tabs2' in o and [[r[0] for r in t] for t in o['tabs2']] != [[r[0] for r in t] for t in o['tabs']]:
+        dev.append('flush_changes_rows')
     if stale:
         dev.append('stale_get')
         detail['stale'] = stale
@@ -826,6 +1008,9 @@ def simulate(c):
     classes = c['classes']
     tabs = [[[r[0], list(r[1])] for r in rs] for rs in c['rows']]
     links = [[list(l) for l in ls] for ls in c['links']]
+    lazy = [bool(ov[0]) for ov in (c.get('opts') or [[False, True]] * len(classes))]
+    txn = c.get('conn') == 'txn'
+    held = set(held_nodes(c))
 
     def destroy(T, x, depth):
         if depth > 40:
@@ -847,7 +1032,8 @@ def simulate(c):
             rcols = [j for j in cols if cd['fks'][j][1] == 'R']
             if rcols and [r for r in tabs[k] if any(r[1][j] is not None and r[1][j] == x for j in rcols)]:
                 raise _Refused()
-            if any(cd['fks'][j][1] == 'N' for j in cols):
+            if any(cd['fks'][j][1] == 'N' for j in cols) and not lazy[k]:
+                # (a lazyUpdate class: row.set only queues the NULLs on the instance)
                 for r in matching():
                     for j in cols:
                         if cd['fks'][j][1] == 'N' and r[1][j] == x:
@@ -863,11 +1049,49 @@ def simulate(c):
         out = 'SQLObjectIntegrityError'
     except RecursionError:
         return {'out': 'RecursionError'}
+    if txn and out != 'ok':
+        # rollback
+        tabs = [[[r[0], list(r[1])] for r in rs] for rs in c['rows']]
+        links = [[list(l) for l in ls] for ls in c['links']]
     gets = []
     for k, rs in enumerate(c['rows']):
         present = {r[0] for r in tabs[k]}
-        gets.append([r[0] in present for r in rs])     # cache.purge: gone in either cache mode
+        # cache.purge: gone in either cache mode; Transaction.commit only expire()s the parent's instances,
+        # which leaves them in the weak map of a cache=False parent
+        gets.append([r[0] in present or (txn and not c['cache'] and (k, r[0]) in held) for r in rs])
     return {'out': out, 'tabs': tabs, 'links': links, 'found': gets}
+
+
+def sim_obs(c):
+    """the simulation in the shape of an observation (for judging it with the oracle)"""
+    sim = simulate(c)
+    if sim['out'] == 'RecursionError':
+        return {'out': 'RecursionError', 'tabs': c['rows'], 'links': c['links'],
+                'gets': [['fresh' for r in rs] for rs in c['rows']]}
+    heldn = set(held_nodes(c))
+    return {'out': sim['out'], 'tabs': sim['tabs'], 'links': sim['links'],
+            'gets': [[('held' if (k, r[0]) in heldn else 'fresh') if f else 'NotFound'
+                      for f, r in zip(fs, c['rows'][k])] for k, fs in enumerate(sim['found'])]}
+
+
+def without_lazy(c):
+    c0 = dict(c)
+    c0.pop('opts', None)
+    c0.pop('pre', None)
+    return c0
+
+
+def lazy_matters(c):
+    """None, or the finding id: does lazyUpdate on some class change what the unchanged algorithm does to the database?"""
+    if not any(ov[0] for ov in (c.get('opts') or [])):
+        return None
+    a, b = simulate(c), simulate(without_lazy(c))
+    if a == b:
+        return None
+    if a['out'] == b['out'] and a['out'] != 'RecursionError' and \
+            [[r[0] for r in t] for t in a['tabs']] == [[r[0] for r in t] for t in b['tabs']] and a['links'] == b['links']:
+        return F_LAZYNULL
+    return F_LAZYDEL
 
 
 def same_as_unchanged_code(c, o):
@@ -886,10 +1110,32 @@ def explain_deviations(c, o, f):
         return None
     if not same_as_unchanged_code(c, o):
         return None
+    lz = lazy_matters(c)
+    if lz:
+        # lazyUpdate on a dependent class changes what the unchanged algorithm does to the database, and the
+        # observation is exactly that: known, together with whatever the same case shows without lazyUpdate
+        if any(d in f['deviations'] for d in ('stale_cached_values', 'default_db_touched', 'ghost_get', 'missing_id',
+                                              'flush_error', 'flush_changes_rows')):
+            return None
+        c0 = without_lazy(c)
+        o0 = sim_obs(c0)
+        f0 = oracle(c0, o0)
+        rest = explain_deviations(c0, o0, f0) if f0 else []
+        if rest is None:
+            return None
+        return [lz] + rest
     sp = spec_of(c)
     D = {tuple(d) for d in sp['D']}
     dev = list(f['deviations'])
     ids = []
+    if 'stale_get' in dev and c.get('conn') == 'txn' and not c['cache'] and o['out'] == 'ok':
+        # after commit the cache=False parent still hands out held instances of rows destroyed in the transaction
+        heldn = set(held_nodes(c))
+        if all((k, rid) in heldn and got == 'held' for k, rid, got in f['detail']['stale']):
+            ids.append(F_TXNSTALE)
+            dev.remove('stale_get')
+    if 'flush_error' in dev or 'flush_changes_rows' in dev:
+        return None
     # fixed findings (restrict_test_per_dependent_class 6f7f267, uncached_connection_hands_out_destroyed_instance
     # e3b93b4) are no longer known: their deviations are violations again
     if ('stale_cached_values' in dev or 'default_db_touched' in dev or 'stale_get' in dev or 'refused_without_restriction' in dev or 'changed_although_raised' in dev or
@@ -950,7 +1196,7 @@ def nontrivial(c, o):
 
 def key(c):
     return [c['classes'], c['rows'], c['links'], c['victim'], c['cache'], c['hold'], c.get('conn', 'default'),
-            c.get('decoy'), c.get('late')]
+            c.get('decoy'), c.get('late'), c.get('opts'), c.get('pre')]
 
 
 def depth_of(c, sp):
@@ -975,6 +1221,8 @@ def distribution(cases, obs):
     d = {'outcome': {}, 'classes': {}, 'closure_size': {}, 'cascade_depth': {}, 'cache': {}, 'hold': {}, 'connection': {}, 'late_graph': {'static': 0, 'late_class': 0, 'late_fk_column': 0, 'late_join': 0},
          'held_instances_checked': 0, 'held_instances_with_nulled_reference': 0,
          'explicit_connection_and_default_db_disagrees_on_restriction': 0,
+         'classes_lazyUpdate': 0, 'classes_cacheValues_off': 0, 'cases_with_options': 0, 'queued_before': 0,
+         'queues_observed': 0, 'queues_with_null_from_destroy': 0, 'lazy_changes_database_outcome': 0,
          'spec_refused': 0, 'null_outs': 0, 'link_rows_removed': 0, 'dangling_left': 0, 'self_reference_schema': 0,
          'two_columns_same_target': 0, 'related_joins': 0, 'deviations': {}, 'missing_victim': 0}
     for c, o in zip(cases, obs):
@@ -998,6 +1246,18 @@ def distribution(cases, obs):
                 d['held_instances_with_nulled_reference'] += 1
         cm = c.get('conn', 'default')
         d['connection'][cm] = d['connection'].get(cm, 0) + 1
+        if c.get('opts'):
+            d['cases_with_options'] += 1
+            d['classes_lazyUpdate'] += sum(1 for ov in c['opts'] if ov[0])
+            d['classes_cacheValues_off'] += sum(1 for ov in c['opts'] if not ov[1])
+            d['queued_before'] += len(c.get('pre', []))
+            d['queues_observed'] += len(o.get('queues', []))
+            pre = {(a[0], a[1], a[2]) for a in c.get('pre', [])}
+            d['queues_with_null_from_destroy'] += sum(
+                1 for i, rid, e in o.get('queues', [])
+                if any(x == [None] and (i, rid, j) not in pre for j, x in enumerate(e)))
+            if victim_exists(c) and lazy_matters(c):
+                d['lazy_changes_database_outcome'] += 1
         if not victim_exists(c):
             d['missing_victim'] += 1
             continue
